@@ -398,12 +398,12 @@ impl Run {
                 self.load(&what)?;
             }
             ROp::Many { n, base, mark } => {
-                for j in 0..(*n).min(300) as u32 {
+                for j in 0..u32::from(*n).min(40_000) {
                     self.mark(seq_key(case.hot, *base, j), *mark, j as i32, 1 + j as i32);
                 }
             }
             ROp::DeleteMany { n, base, batch, filler_seed } => {
-                let mut list: Vec<[u8; 16]> = (0..(*n).min(300) as u32).map(|j| seq_key(case.hot, *base, j)).collect();
+                let mut list: Vec<[u8; 16]> = (0..u32::from(*n).min(40_000)).map(|j| seq_key(case.hot, *base, j)).collect();
                 for k in &list {
                     self.keys.insert(*k);
                 }
